@@ -249,7 +249,7 @@ def main():
             cleanup()
         own = case["own"]
         mod = importlib.import_module(own)
-        fd_terms, defs = [], []
+        fd_terms, defs, traced = [], [], []
         raised = None
         for fn in case["fns"]:
             func = mod
@@ -266,6 +266,7 @@ def main():
                 coq_list(f"({coq_str(n)}, {common.reify_type(t, ct)})" for n, t in args.items()),
                 coq_opt(common.reify_type(ret, ct) if ret is not None else None),
                 coq_opt(common.reify_type(yld, ct) if yld is not None else None)))
+            traced.append((func, args, ret, yld))
             try:
                 defs.append(FunctionDefinition.from_callable_and_traced_types(
                     func, args, ret, yld, ExistingAnnotationStrategy.IGNORE))
@@ -278,6 +279,25 @@ def main():
                 text = stubs[own].render() if own in stubs else ""
             except Exception as e:
                 raised = f"{type(e).__name__}: {e}"
+        # history: the same module stub is generated again, twice, in this process (definitions rebuilt from the same
+        # traced types, so the signatures are equal but not identical objects).  The stub must not depend on how often it
+        # has been generated: the LAST generation is the one that is evaluated below, and any difference between
+        # generations is reported to Coq as `rc_raised` (no repeatable stub exists for this input).
+        unstable = None
+        if raised is None:
+            first = text
+            for generation in (2, 3):
+                try:
+                    again = [FunctionDefinition.from_callable_and_traced_types(
+                        func, args, ret, yld, ExistingAnnotationStrategy.IGNORE) for func, args, ret, yld in traced]
+                    stubs = build_module_stubs(again)
+                    text = stubs[own].render() if own in stubs else ""
+                except Exception as e:
+                    unstable = f"generation {generation} of the same stub in one process raised {type(e).__name__}: {e}"
+                    break
+                if text != first and unstable is None:
+                    unstable = (f"generation {generation} of the same stub in one process differs from generation 1; "
+                                f"generation 1 was: {first!r}")
         if raised is None:
             try:
                 imports_ok, annos = evaluate_stub(text, own)
@@ -285,6 +305,7 @@ def main():
                 imports_ok, annos = False, []
                 raised_note = f"stub does not parse: {e}"
                 case["parse_error"] = raised_note
+        raised = raised or unstable
         table = collections.OrderedDict((fn["key"], []) for fn in case["fns"])
         for key, slot, src, term in annos:
             table.setdefault(key, []).append(f"({coq_str(slot)}, ({coq_str(src)}, {coq_opt(term)}))")
